@@ -4,6 +4,7 @@ import (
 	"context"
 	"encoding/json"
 	"fmt"
+	"math"
 	"strings"
 	"testing"
 
@@ -31,6 +32,9 @@ type WalkCase struct {
 	Break    BreakSpec              `json:"break"`
 	Cuts     []int                  `json:"cuts,omitempty"` // split positions (ascending, within 1..len-1)
 	UseStep  bool                   `json:"useStep,omitempty"`
+	// Unserialisable: the state also holds a value JSON cannot express
+	// (+Inf), under this key (C06 only)
+	Unserialisable string `json:"unserialisable,omitempty"`
 }
 
 func genWalkWith(t *rapid.T, o sm.SpecOpts) WalkCase {
@@ -320,6 +324,11 @@ func genHold(t *rapid.T) WalkCase {
 	c := genWalkWith(t, sm.SpecOpts{Deterministic: true, NativeToo: true, InPlace: true, Scribble: true, ArrayVar: true, Fail: 5, GuardFail: 3, Emit: true, UserErrorNode: true, Lively: rapid.Bool().Draw(t, "lively")})
 	c.UseStep = rapid.IntRange(0, 2).Draw(t, "useStep") == 0
 	c.Cuts = nil
+	if rapid.IntRange(0, 5).Draw(t, "inf") == 0 {
+		c.Unserialisable = rapid.SampledFrom([]string{"inf", "x", "n"}).Draw(t, "infkey")
+		// and something structured that a script may write into
+		c.Bs[rapid.SampledFrom([]string{"y", "l", "cfg!"}).Draw(t, "nestkey")] = map[string]interface{}{"a": 1.0, "deep": map[string]interface{}{"b": []interface{}{1.0}}}
+	}
 	return c
 }
 
@@ -397,6 +406,10 @@ func checkHold(c WalkCase) (v ev.Verdict) {
 	}
 	ctx := context.Background()
 	st := &core.State{NodeName: c.Node, Bs: match.Bindings(jsongen.CopyMap(c.Bs))}
+	if c.Unserialisable != "" {
+		st.Bs[c.Unserialisable] = math.Inf(1)
+		v.Class("unserialisable-binding")
+	}
 	msgs := copyMsgs(c.Messages)
 	props := core.StepProps{"p": map[string]interface{}{"nested": []interface{}{1.0, 2.0}}, "q": "s"}
 	ctl := &core.Control{Limit: c.Limit}
